@@ -169,8 +169,17 @@ def gen_case(world, tier, prop):
     policy = {'kind': 'pct', 'd': sw.randint(1, 3), 'horizon': sw.choice([300, 1500, 5000])}
   else:
     policy = {'kind': 'pause', 'q': 0.6}
-  return {'threads': threads, 'behav': behav, 'policy': policy,
+  case = {'threads': threads, 'behav': behav, 'policy': policy,
           'opcode': OPCODE_OK and sw.random() < 0.33, 'sched_seed': world.seed}
+  if sw.random() < 0.3:
+    # every thread makes and drops configurations of ONE callable that no
+    # lasting configuration uses
+    fn = sw.choice(['camel_node', 'CamelNode', 'n7'])
+    for t, ops in enumerate(threads):
+      for j in range(sw.randint(1, 3)):
+        ops.insert(sw.randint(1, len(ops)),
+                   {'op': 'temp', 'fn': fn, 'uid': 900000 + 10 * t + j})
+  return case
 
 
 # --------------------------------------------------------------------------
